@@ -15,7 +15,7 @@ META = {
             'order, the delivered list is always a prefix of the accepted one (never twice / reordered / skipped, across '
             'move/reset cycles, synchronous fall-back when no worker exists), the stop terminates within measure+2 '
             'enabled steps while the application object lives, and the full-strength "returns with or without a live '
-            'QCoreApplication" is REFUTED by a witness (finding F5).  The skeleton of resetOwnThread / moveToOwnThread / '
+            'QCoreApplication" is REFUTED by a witness (finding F5); for any number of concurrent stopper threads no stop ever acts on a cleared thread (C04_concurrent_stops_safe), which is refuted for the pre-repair skeleton by a two-stopper witness.  The skeleton of resetOwnThread / moveToOwnThread / '
             'destructor / process / customEvent is re-read from the source on every run and must equal the modelled '
             'one; recordings of the real library on every shutdown path are fed to the extracted acceptor (proved: '
             'accepted => a run of the model) and to direct oracles in the property\'s own terms.',
@@ -34,6 +34,8 @@ BOUND_S = 10.0          # wall-clock bound for a child beyond its expected drain
 F5_PATHS = ('noexec', 'noapp')
 TOK = {'TAKE': 'T', 'DONE': 'N', 'RLOCKED': 'L', 'RWAIT': 'W', 'RQUIT': 'Q', 'STOP_END': 'S', 'APP_GONE': 'G',
        'MOVE': 'M', 'EXIT': 'X'}
+INDEXED = ('RLOCKED', 'RWAIT', 'RQUIT', 'STOP_END')   # carry the stopper thread
+NSTOP = 2
 
 
 # --------------------------------------------------------------------------------- scenarios
@@ -102,10 +104,32 @@ def widened_scenarios(rng):
     return out
 
 
+def corpus_scenarios():
+    """corpus/C04/scenarios.txt: the minimised scenarios that caught a seeded patch or a finding"""
+    out = []
+    path = os.path.join(vlib.VERIF, 'corpus', 'C04', 'scenarios.txt')
+    if not os.path.exists(path):
+        return out
+    for ln in open(path):
+        ln = ln.strip()
+        if not ln or ln.startswith('#'):
+            continue
+        d = {}
+        for kv in ln.split():
+            k, v = kv.split('=', 1)
+            d[k] = int(v) if re.fullmatch(r'-?\d+', v) else v
+        if d.pop('san', 0):
+            d['_san'] = 1
+        d.setdefault('backlog', 0); d.setdefault('delay', 0)
+        d['_corpus'] = 1
+        out.append(d)
+    return out
+
+
 def scenarios(chk):
     rng = chk.rng
     thorough = chk.tier == 'thorough'
-    out = []
+    out = corpus_scenarios()
     backlogs = [0, 1, 2, 5, 30, 100, 300] if thorough else [0, 1, 5, 100]
     delays = [0, 1, 5, 20] if thorough else [0, 1, 20]
     # (1) aboutToQuit via exec()+quit, (2) explicit reset inside / outside a running event loop, (5) cycles
@@ -157,6 +181,12 @@ def scenarios(chk):
         out += widened_scenarios(rng)
     # an own Logger deleted inside the running event loop, then quit: run under the sanitizers
     out.append(scn('scoped', 3, 1, loop=1, _san=1))
+    seen, uniq = set(), []
+    for s in out:       # the corpus comes first; a generated duplicate of a corpus line is dropped
+        key = (tuple(argv_of(s)), bool(s.get('_san')))
+        if key not in seen:
+            seen.add(key); uniq.append(s)
+    out = uniq
     for i, s in enumerate(out):
         s['_n'] = i
     return out
@@ -225,7 +255,7 @@ def analyze(s, r):
             toks.append('D%d%s' % (m, f[2]))
             facts['sync_deliveries'] += f[2] == 's'
         elif k in TOK:
-            toks.append(TOK[k])
+            toks.append(TOK[k] + (f[1] if k in INDEXED and len(f) > 1 else ''))
             if k == 'TAKE':
                 in_hand = True
             elif k == 'DONE':
@@ -245,7 +275,8 @@ def analyze(s, r):
                     stops.append((cur_begin, i))
                     if not rlocked_since_begin:
                         facts['stops_without_thread'] += 1
-                    cur_begin = None
+                    if not s.get('concurrent'):
+                        cur_begin = None
                 # a returned stop: everything posted has been delivered (with racing producers a
                 # synchronous delivery may be under way: only the prefix relation is required)
                 oracle_points.append((list(posted), list(delivered), not racing))
@@ -310,7 +341,7 @@ def analyze(s, r):
 
 def model_line(s, toks):
     app0 = '0' if s['path'] == 'noapp' else '1'
-    return ' '.join([app0, '0'] + toks)
+    return ' '.join([app0, '0', str(NSTOP)] + toks)
 
 
 def parse_model(line):
@@ -390,7 +421,7 @@ def run():
                    'extraction ExtrOcamlBasic only, no Extract Constant; ocaml/drv_shutdown.ml',
                    'harness/h_shutdown.cpp, the QTLOGGER_VERIF_POINT hooks (order of write(2) calls = order of events), gdb for stacks',
                    'modelled not verified: QThread, Qt posted events (FIFO; discarded in secondary threads once QCoreApplication::instance() is null), QMutex, QAtomicInt']
-    chk.assumptions = ['one stop at a time in the model (concurrent resetOwnThread calls from two threads are exercised by one scenario with the direct oracles only)',
+    chk.assumptions = ['any number of threads may be inside resetOwnThread at once in the model (one entry of `stops` each); the recordings use at most two stopper threads',
                        'moveToOwnThread is not called concurrently with logging calls in the recordings (the harness holds the logger lock around it)',
                        'real time is outside the model: "bounded time" is checked on the implementation only, as exit within %.0f s + 1.5 x expected drain time' % BOUND_S,
                        'Qt emits aboutToQuit when exec() returns after quit() (Qt behaviour, not modelled)']
@@ -434,7 +465,8 @@ def run():
         for i, s in enumerate(scs):
             s['_n'] = i
     # children that are expected to sit out the whole bound go first
-    order = sorted(scs, key=lambda s: (0 if (s['path'] in F5_PATHS and s['backlog'] > 0 and int(s.get('async', 1))) else 1, -bound_of(s)))
+    # the corpus first; then the children that are expected to sit out the whole bound
+    order = sorted(scs, key=lambda s: (0 if s.get('_corpus') else 1 if (s['path'] in F5_PATHS and s['backlog'] > 0 and int(s.get('async', 1))) else 2, -bound_of(s)))
     with ThreadPoolExecutor(max_workers=16) as ex:
         results = dict(zip([s['_n'] for s in order], ex.map(job, order)))
     pr = proof_future.result()
@@ -473,8 +505,6 @@ def run():
     n_oracle = evaluate(pairs)
 
     def disagreement(s, r):
-        if s.get('concurrent'):
-            return None          # two simultaneous stops are outside the model
         mv = r['model']
         if not mv.get('ok'):
             k = mv.get('rejected_at')
@@ -550,6 +580,7 @@ def run():
         'messages_accepted_total': tot('posted'), 'messages_delivered_total': tot('delivered'),
         'boundary_hits': {k: tot(k) for k in ('wait_iterations', 'posts_during_wait_loop', 'sync_deliveries', 'moves',
                                              'stops_without_thread', 'first_check_empty', 'check_with_message_in_hand', 'foreign')},
+        'corpus_scenarios_replayed_first': sum(1 for s in scs if s.get('_corpus')),
         'extended_schedule_search': extended, 'sanitizer_children': sum(1 for s in scs if s.get('_san')),
         'max_child_wall_s': max(r['wall'] for _, r in pairs), 'skeleton_translator': pr.get('translator', {}),
     })
